@@ -234,19 +234,32 @@ inductive Amf where
   | undefined
   deriving Repr, DecidableEq
 
-/-- one AMF0 value of a simple type (marker + payload) -/
+/-- one AMF0 value of a simple type: marker byte, then the payload -/
 def parseAmfValue : Bytes → Option (Amf × Bytes)
-  | 0x00 :: a :: b :: c :: d :: e :: f :: g :: h :: rest =>
-    some (.number (u32 a b c d * 4294967296 + u32 e f g h), rest)
-  | 0x01 :: v :: rest => some (.boolean (v ≠ 0), rest)
-  | 0x02 :: l1 :: l2 :: rest =>
-    if rest.length < u16 l1 l2 then none else some (.string (rest.take (u16 l1 l2)), rest.drop (u16 l1 l2))
-  | 0x0C :: l1 :: l2 :: l3 :: l4 :: rest =>
-    if rest.length < u32 l1 l2 l3 l4 then none
-    else some (.string (rest.take (u32 l1 l2 l3 l4)), rest.drop (u32 l1 l2 l3 l4))
-  | 0x05 :: rest => some (.null, rest)
-  | 0x06 :: rest => some (.undefined, rest)
-  | _ => none
+  | [] => none
+  | m :: rest =>
+    if m = 0x00 then            -- number-marker, DOUBLE
+      match rest with
+      | a :: b :: c :: d :: e :: f :: g :: h :: r => some (.number (u32 a b c d * 4294967296 + u32 e f g h), r)
+      | _ => none
+    else if m = 0x01 then       -- boolean-marker, U8
+      match rest with
+      | v :: r => some (.boolean (v ≠ 0), r)
+      | _ => none
+    else if m = 0x02 then       -- string-marker, UTF-8 (U16 length)
+      match rest with
+      | l1 :: l2 :: r =>
+        if r.length < u16 l1 l2 then none else some (.string (r.take (u16 l1 l2)), r.drop (u16 l1 l2))
+      | _ => none
+    else if m = 0x0C then       -- long-string-marker, UTF-8-long (U32 length)
+      match rest with
+      | l1 :: l2 :: l3 :: l4 :: r =>
+        if r.length < u32 l1 l2 l3 l4 then none
+        else some (.string (r.take (u32 l1 l2 l3 l4)), r.drop (u32 l1 l2 l3 l4))
+      | _ => none
+    else if m = 0x05 then some (.null, rest)
+    else if m = 0x06 then some (.undefined, rest)
+    else none
 
 /-- the (name, value) pairs of an object / ECMA array up to the end marker `00 00 09` (an empty
     name is only legal in the end marker) -/
@@ -323,9 +336,9 @@ def codecIdOf (c : VCodec) : Nat := if c = .h265 then 12 else 7
 /-- H.264: nal_unit_type 5 (IDR slice).  H.265: the assigned IRAP types BLA_W_LP(16) …
     CRA_NUT(21) (22, 23 are reserved IRAP types that no conforming stream contains). -/
 def isKeyNal (c : VCodec) (nal : Bytes) : Bool :=
-  match nal with
-  | [] => false
-  | h :: _ =>
+  match nal.head? with
+  | none => false
+  | some h =>
     if c = .h265 then
       let t := (h.toNat / 2) % 64
       decide (16 ≤ t ∧ t ≤ 21)
